@@ -75,10 +75,36 @@ enum EntrySpec {
     UpdateNode { tenant: String, node_id: u64, properties: Vec<u8>, version: u64 },
     UpdateEdge { tenant: String, edge_id: u64, properties: Vec<u8>, version: u64 },
     Checkpoint { sequence: u64, timestamp: i64 },
+    /// a record whose size is the point: `shape` says which field carries `size` bytes
+    /// ("node_blob", "update_blob", "edge_blob", "labels", "tenant", "edge_type"); bytes are
+    /// `fill + 31*i` (fill 0 = all zero); expanded at run time so replay files stay small
+    Big { shape: String, size: usize, fill: u8 },
+}
+
+fn big_bytes(size: usize, fill: u8) -> Vec<u8> {
+    if fill == 0 {
+        vec![0u8; size]
+    } else {
+        (0..size).map(|i| fill.wrapping_add((i as u8).wrapping_mul(31))).collect()
+    }
+}
+fn big_text(size: usize, fill: u8) -> String {
+    (0..size).map(|i| (b'a' + ((fill as usize + i) % 26) as u8) as char).collect()
 }
 
 impl EntrySpec {
     fn to_entry(&self) -> WalEntry {
+        if let EntrySpec::Big { shape, size, fill } = self {
+            return match shape.as_str() {
+                "update_blob" => WalEntry::UpdateNodeProperties { tenant: "default".into(), node_id: 7, properties: big_bytes(*size, *fill), version: 3 },
+                "edge_blob" => WalEntry::CreateEdge { tenant: "default".into(), edge_id: 9, source: 1, target: 2, edge_type: "KNOWS".into(), properties: big_bytes(*size, *fill) },
+                // label list of about `size` bytes: 8-byte labels
+                "labels" => WalEntry::CreateNode { tenant: "default".into(), node_id: 7, labels: (0..(*size / 8).max(1)).map(|i| format!("L{:07}", i % 10_000_000)).collect(), properties: vec![1, 2, 3] },
+                "tenant" => WalEntry::DeleteNode { tenant: big_text(*size, *fill), node_id: 7 },
+                "edge_type" => WalEntry::CreateEdge { tenant: "default".into(), edge_id: 9, source: 1, target: 2, edge_type: big_text(*size, *fill), properties: vec![] },
+                _ => WalEntry::CreateNode { tenant: "default".into(), node_id: 7, labels: vec!["Person".into()], properties: big_bytes(*size, *fill) },
+            };
+        }
         match self.clone() {
             EntrySpec::CreateNode { tenant, node_id, labels, properties } => WalEntry::CreateNode { tenant, node_id, labels, properties },
             EntrySpec::CreateEdge { tenant, edge_id, source, target, edge_type, properties } => WalEntry::CreateEdge { tenant, edge_id, source, target, edge_type, properties },
@@ -87,6 +113,7 @@ impl EntrySpec {
             EntrySpec::UpdateNode { tenant, node_id, properties, version } => WalEntry::UpdateNodeProperties { tenant, node_id, properties, version },
             EntrySpec::UpdateEdge { tenant, edge_id, properties, version } => WalEntry::UpdateEdgeProperties { tenant, edge_id, properties, version },
             EntrySpec::Checkpoint { sequence, timestamp } => WalEntry::Checkpoint { sequence, timestamp },
+            EntrySpec::Big { .. } => unreachable!(),
         }
     }
     fn kind(&self) -> &'static str {
@@ -98,6 +125,7 @@ impl EntrySpec {
             EntrySpec::UpdateNode { .. } => "update_node",
             EntrySpec::UpdateEdge { .. } => "update_edge",
             EntrySpec::Checkpoint { .. } => "checkpoint_entry",
+            EntrySpec::Big { .. } => "big",
         }
     }
 }
@@ -482,6 +510,57 @@ fn judge_flip(h: &Hist, all_files: &[&[u8]], off: usize, mask: u8, from: u64, re
     ))
 }
 
+/// Offsets of the newest file that the fault enumeration visits. Small logs: every byte.
+/// Newest file above 4 KiB: every byte of small frames; for a big frame its first 14 bytes
+/// (boundary, length prefix, sequence, first entry bytes), its last 6, the quartiles and the
+/// offsets around 64 KiB. Every replay re-reads the whole log, so when the log (all files)
+/// exceeds 32 KiB the list is thinned to max(5, 2 MiB / log size) offsets, keeping first the
+/// decision points of each frame (start, end of the length prefix, first entry byte, last byte).
+fn fault_offsets(frames: &[(usize, usize)], file_len: usize, log_bytes: usize) -> Vec<usize> {
+    let mut v: BTreeSet<usize> = BTreeSet::new();
+    if file_len <= 4096 {
+        v.extend(0..file_len);
+    } else {
+        for &(a, b) in frames {
+            let flen = b - a;
+            if flen <= 600 {
+                v.extend(a..b);
+            } else {
+                v.extend(a..a + 14);
+                v.extend(b - 6..b);
+                v.extend([a + flen / 4, a + flen / 2, a + 3 * flen / 4]);
+                for k in [65_534usize, 65_535, 65_536, 65_537, 65_540] {
+                    if k < flen {
+                        v.insert(a + k);
+                    }
+                }
+            }
+        }
+    }
+    if log_bytes <= (32 << 10) {
+        return v.into_iter().collect();
+    }
+    let max = ((2usize << 20) / log_bytes).max(5);
+    let thin = |xs: Vec<usize>, k: usize| -> Vec<usize> {
+        if xs.len() <= k {
+            xs
+        } else if k == 0 {
+            Vec::new()
+        } else {
+            (0..k).map(|i| xs[i * xs.len() / k]).collect()
+        }
+    };
+    let mut prio: BTreeSet<usize> = BTreeSet::new();
+    for &(a, b) in frames {
+        prio.extend([a, a + 3, a + 4, a + 12, b - 1].into_iter().filter(|o| *o < b && v.contains(o)));
+    }
+    let rest: Vec<usize> = v.iter().cloned().filter(|o| !prio.contains(o)).collect();
+    let mut out: BTreeSet<usize> = thin(prio.into_iter().collect(), max).into_iter().collect();
+    let room = max.saturating_sub(out.len());
+    out.extend(thin(rest, room));
+    out.into_iter().collect()
+}
+
 fn flip_region(fr: (usize, usize), off: usize) -> &'static str {
     let rel = off - fr.0;
     let flen = fr.1 - fr.0;
@@ -547,6 +626,37 @@ fn c15_case(dir: &Path, case: &WalCase, kf: Kf15, ev: &RefCell<&mut Evidence>) -
         for o in &case.ops {
             if let WalOp::Append(a) = o {
                 e.class(&format!("append_{}", a.kind()));
+            }
+        }
+        // record-size classes: where the big records sit in the log
+        let recs: Vec<usize> = case.ops.iter().enumerate().filter(|(_, o)| matches!(o, WalOp::Append(_) | WalOp::Checkpoint(_))).map(|(i, _)| i).collect();
+        for (k, &i) in recs.iter().enumerate() {
+            if let WalOp::Append(EntrySpec::Big { shape, size, .. }) = &case.ops[i] {
+                e.class(match *size {
+                    0..=300 => "big_record_255_257B",
+                    301..=5000 => "big_record_4KiB",
+                    5001..=65_300 => "big_record_below_64KiB",
+                    65_301..=65_800 => "big_record_64KiB_edge",
+                    65_801..=1_000_000 => "big_record_65KiB_plus",
+                    1_000_001..=2_000_000 => "big_record_1MiB",
+                    _ => "big_record_16MiB",
+                });
+                e.class(&format!("big_record_shape_{shape}"));
+                e.class(if recs.len() == 1 {
+                    "big_record_only"
+                } else if k == 0 {
+                    "big_record_first"
+                } else if k + 1 == recs.len() {
+                    "big_record_last"
+                } else {
+                    "big_record_middle"
+                });
+                if case.ops[..i].iter().any(|o| matches!(o, WalOp::Reopen | WalOp::Checkpoint(_))) {
+                    e.class("big_record_after_rotation");
+                }
+                if case.ops[i + 1..].iter().any(|o| matches!(o, WalOp::Reopen | WalOp::Checkpoint(_))) && case.ops[i + 1..].iter().any(|o| matches!(o, WalOp::Append(_))) {
+                    e.class("big_record_in_older_file");
+                }
             }
         }
     }
@@ -868,12 +978,23 @@ fn c15_case(dir: &Path, case: &WalCase, kf: Kf15, ev: &RefCell<&mut Evidence>) -
                 flip_one(f.offset, f.mask, Some(f.from))
             }
             None => {
-                for n in (0..pristine.len()).rev() {
+                let log_bytes: usize = h.files.iter().map(|f| f.1.len()).sum();
+                let offsets = fault_offsets(&h.frames, pristine.len(), log_bytes);
+                let sampled = offsets.len() < pristine.len();
+                // logs above 2 MiB: one mask, and only the length-prefix flip after the reopen
+                let huge = |_off: usize| log_bytes > (2 << 20);
+                if sampled {
+                    ev.borrow_mut().class("history_fault_offsets_sampled");
+                }
+                for &n in offsets.iter().rev() {
                     trunc_one(n)?;
                 }
                 restore();
-                for off in 0..pristine.len() {
+                for &off in &offsets {
                     for mask in MASKS {
+                        if mask != 0x01 && huge(off) {
+                            continue;
+                        }
                         flip_one(off, mask, None)?;
                     }
                 }
@@ -881,16 +1002,19 @@ fn c15_case(dir: &Path, case: &WalCase, kf: Kf15, ev: &RefCell<&mut Evidence>) -
                     // a sample of the offsets, dense where the reader's decisions are made: around every
                     // record boundary, through the length prefix, the first body byte, the last byte of a
                     // frame; every 5th offset elsewhere
-                    for n in 0..pristine.len() {
+                    for &n in &offsets {
                         let (_, fr) = frame_of(n);
                         let rel = n - fr.0;
-                        if rel <= 5 || n + 1 == fr.1 || rel % 5 == 0 {
+                        if rel <= 5 || n + 1 == fr.1 || rel % 5 == 0 || (sampled && rel > 600) {
                             post_one(n, None, None)?;
                         }
                     }
-                    for off in 0..pristine.len() {
+                    for &off in &offsets {
                         let (_, fr) = frame_of(off);
                         let rel = off - fr.0;
+                        if huge(off) && rel != 3 {
+                            continue;
+                        }
                         if rel < 4 {
                             // length prefix: what `Wal::new` and replay use to walk the file
                             post_one(off, Some(0x01), None)?;
@@ -992,6 +1116,81 @@ fn c15_probe_alloc(dir: &Path) -> Result<bool, String> {
     }
 }
 
+fn big_entry_strategy() -> impl Strategy<Value = EntrySpec> {
+    let size = prop_oneof![
+        3 => proptest::sample::select(vec![255usize, 256, 257]),
+        2 => proptest::sample::select(vec![4095usize, 4096, 4097]),
+        // the frame length (8 + entry + 4) crosses 64 KiB somewhere in here for every shape
+        4 => 65_400usize..65_700,
+        3 => proptest::sample::select(vec![65_535usize, 65_536, 65_537, 65 * 1024]),
+        1 => Just(1usize << 20),
+    ];
+    let shape = prop_oneof![
+        4 => Just("node_blob"),
+        2 => Just("update_blob"),
+        1 => Just("edge_blob"),
+        1 => Just("labels"),
+        1 => Just("tenant"),
+        1 => Just("edge_type"),
+    ];
+    (shape, size, proptest::sample::select(vec![0u8, 1, 0xFF])).prop_map(|(shape, size, fill)| EntrySpec::Big { shape: shape.to_string(), size, fill })
+}
+/// short histories with one or two big records at a generated position, with rotation around them
+fn sized_history_strategy() -> impl Strategy<Value = Vec<WalOp>> {
+    let op = prop_oneof![
+        5 => entry_strategy().prop_map(WalOp::Append),
+        2 => Just(WalOp::Reopen),
+        1 => id_strategy().prop_map(WalOp::Checkpoint),
+        1 => Just(WalOp::Flush),
+    ];
+    (proptest::collection::vec(op, 0..=5), proptest::collection::vec((big_entry_strategy(), any::<u16>()), 1..=2)).prop_map(|(mut ops, bigs)| {
+        for (b, sel) in bigs {
+            let at = pick_idx(sel, ops.len() + 1);
+            ops.insert(at, WalOp::Append(b));
+        }
+        ops
+    })
+}
+/// deterministic ladder: every size of interest at the first / middle / last position of a log
+/// and on either side of a segment rotation
+fn size_ladder(thorough: bool) -> Vec<WalCase> {
+    let small = |id: u64| WalOp::Append(EntrySpec::DeleteNode { tenant: "default".into(), node_id: id });
+    let big = |shape: &str, size: usize| WalOp::Append(EntrySpec::Big { shape: shape.into(), size, fill: 1 });
+    let mut out = Vec::new();
+    let mut sizes = vec![255usize, 256, 257, 4096, 65_535, 65_536, 65_537, 65 * 1024, 1 << 20];
+    if thorough {
+        sizes.push(16 << 20);
+    }
+    for size in sizes {
+        let b = || big("node_blob", size);
+        let mut layouts: Vec<Vec<WalOp>> = vec![
+            vec![b(), small(1), small(2)],
+            vec![small(1), small(2), b()],
+            // the big record ends up in an older file
+            vec![small(1), b(), WalOp::Reopen, small(2), small(3)],
+        ];
+        if size < (1 << 20) {
+            layouts.push(vec![small(1), b(), small(2)]);
+            layouts.push(vec![small(1), WalOp::Checkpoint(1), b(), small(2)]);
+        }
+        if size >= (16 << 20) {
+            layouts = vec![vec![small(1), b(), small(2)], vec![small(1), b(), WalOp::Reopen, small(2)]];
+        }
+        for ops in layouts {
+            out.push(WalCase { ops, tail: vec![small(9)], fault: None });
+        }
+    }
+    for shape in ["update_blob", "edge_blob", "labels", "tenant", "edge_type"] {
+        for size in [257usize, 65_536, 1 << 20] {
+            if size == (1 << 20) && !shape.ends_with("blob") {
+                continue;
+            }
+            out.push(WalCase { ops: vec![small(1), big(shape, size), small(2)], tail: vec![small(9)], fault: None });
+        }
+    }
+    out
+}
+
 fn tail_strategy() -> impl Strategy<Value = Vec<WalOp>> {
     let op = prop_oneof![
         5 => entry_strategy().prop_map(WalOp::Append),
@@ -1045,7 +1244,7 @@ fn c15(args: &Args) {
     let mut ev = Evidence::new(
         args,
         "fault_enumeration",
-        "histories of append (all 7 entry kinds, payload 0-300 B) / flush / close+reopen / checkpoint on a real Wal directory; then (a) no fault: replay(from) for 0, 1, several returned sequences, max, max+1, u64::MAX must deliver exactly the appended records with returned sequence >= from, in order, and append return values must be strictly increasing across reopen; (b) the newest file truncated to EVERY length 0..len-1: replay must be Ok and deliver exactly the complete records; (c) EVERY byte of the newest file XORed with 0x01, 0x80, 0xFF, replay(0) and replay(seq of the hit record): Err after a prefix of the expected records, or Ok with exactly the expected records (a length prefix flipped past end-of-file may also end the log there); (d) life after the crash: the newest file cut at a sample of lengths (around every record boundary, through the length prefix, first body byte, last byte of a frame, every 5th offset elsewhere) or a byte flipped (every length-prefix byte with 0x01 and 0x80, the low sequence byte and every 16th other byte with 0x01), then Wal::new on the directory, a generated tail of 1-4 operations with at least one append (flush/checkpoint/second reopen optional), then replay(0), replay(first new sequence), replay(last surviving sequence): after a cut, Ok delivering exactly the complete records before the cut followed by every record appended after the reopen, and their sequences strictly increasing; after a flip, the flip oracle of (c) over old + new records. One evaluation = one replay. Non-trivial = the history contains a reopen, or the fault lands inside a record body (past the 4-byte length prefix); distinct = distinct (history, fault, from).",
+        "histories of append (all 7 entry kinds, payload 0-300 B; plus a record-size class: property blobs / label lists / tenant and edge-type strings of 255-257 B, 4 KiB, 64 KiB +- 1 and a sweep across the 64 KiB frame length, 65 KiB, 1 MiB [thorough: 16 MiB] at the first/middle/last position of the log and on either side of a segment rotation, as a deterministic ladder and in 1 of 10 [thorough: 1 of 40] generated histories; fault offsets are sampled when the newest file exceeds 4 KiB [big frames: first 14 and last 6 bytes, quartiles, offsets around 64 KiB] and thinned to max(5, 2 MiB / log size) offsets when the whole log exceeds 32 KiB, because every replay re-reads the whole log) / flush / close+reopen / checkpoint on a real Wal directory; then (a) no fault: replay(from) for 0, 1, several returned sequences, max, max+1, u64::MAX must deliver exactly the appended records with returned sequence >= from, in order, and append return values must be strictly increasing across reopen; (b) the newest file truncated to EVERY length 0..len-1: replay must be Ok and deliver exactly the complete records; (c) EVERY byte of the newest file XORed with 0x01, 0x80, 0xFF, replay(0) and replay(seq of the hit record): Err after a prefix of the expected records, or Ok with exactly the expected records (a length prefix flipped past end-of-file may also end the log there); (d) life after the crash: the newest file cut at a sample of lengths (around every record boundary, through the length prefix, first body byte, last byte of a frame, every 5th offset elsewhere) or a byte flipped (every length-prefix byte with 0x01 and 0x80, the low sequence byte and every 16th other byte with 0x01), then Wal::new on the directory, a generated tail of 1-4 operations with at least one append (flush/checkpoint/second reopen optional), then replay(0), replay(first new sequence), replay(last surviving sequence): after a cut, Ok delivering exactly the complete records before the cut followed by every record appended after the reopen, and their sequences strictly increasing; after a flip, the flip oracle of (c) over old + new records. One evaluation = one replay. Non-trivial = the history contains a reopen, or the fault lands inside a record body (past the 4-byte length prefix); distinct = distinct (history, fault, from).",
     );
     ev.assume("a crash is modelled as: handle dropped (BufWriter flushed), then the newest log file cut at a byte offset; earlier files are intact");
     ev.assume("Wal::checkpoint writes the wall-clock time into the marker: the timestamp field of such markers is not compared");
@@ -1105,8 +1304,29 @@ fn c15(args: &Args) {
         }
     }
 
+    // record-size ladder (deterministic)
+    for case in size_ladder(args.tier == Tier::Thorough) {
+        ev.class("size_ladder");
+        let r = {
+            let cell = RefCell::new(&mut ev);
+            c15_case(&dir, &case, kf, &cell)
+        };
+        if let Err(f) = r {
+            let mut c = case.clone();
+            c.fault = f.fault.clone();
+            report_violation(&mut ev, &json!(c), &f.msg);
+            finish(&ev);
+        }
+    }
+
     let n = args.tier.pick(400u32, 8_000u32);
-    let strat = (history_strategy(args.tier.pick(10, 14)), tail_strategy());
+    let max_ops = args.tier.pick(10, 14);
+    // the record-size class is expensive per history (every replay re-reads the whole log):
+    // 1 in 10 histories in quick, 1 in 40 in thorough (so about 40 and 200 of them)
+    let strat = prop_oneof![
+        args.tier.pick(9, 39) => (history_strategy(max_ops), tail_strategy()),
+        1 => (sized_history_strategy(), tail_strategy()),
+    ];
     let res = {
         let cell = RefCell::new(&mut ev);
         search_budget(args.seed, n, 1500, &strat, |(ops, tail)| {
@@ -1147,7 +1367,7 @@ fn c15(args: &Args) {
 // C17
 // =======================================================================================
 
-const KF17: &str = "KF-C17-1"; // scans are not bounded by the tenant prefix
+const KF17: &str = "KF-C17-2"; // key layout ambiguous for tenant names that contain ':'
 
 #[derive(Clone, Debug, Serialize, Deserialize, PartialEq, Eq, Hash)]
 enum TOp {
@@ -1207,18 +1427,23 @@ impl TModel {
         v.sort();
         v
     }
-    /// KF-C17-1 quirk: the scan starts at "<tenant>:" and runs to the end of the column family
-    fn nodes_unbounded(&self, t: &str) -> Vec<NodeRow> {
-        let start = format!("{t}:").into_bytes();
-        let mut v: Vec<NodeRow> = self.nodes.iter().filter(|(k, _)| format!("{}:n:{:016x}", k.0, k.1).into_bytes() >= start).map(|(_, r)| r.clone()).collect();
+    /// KF-C17-2 quirk: a scan returns every key that starts with "<tenant>:" -- which includes
+    /// the keys of any tenant whose name continues this one with ':' ("a" sees "a:b")
+    fn nodes_prefix(&self, t: &str) -> Vec<NodeRow> {
+        let start = format!("{t}:");
+        let mut v: Vec<NodeRow> = self.nodes.iter().filter(|(k, _)| format!("{}:n:{:016x}", k.0, k.1).starts_with(&start)).map(|(_, r)| r.clone()).collect();
         v.sort();
         v
     }
-    fn edges_unbounded(&self, t: &str) -> Vec<EdgeRow> {
-        let start = format!("{t}:").into_bytes();
-        let mut v: Vec<EdgeRow> = self.edges.iter().filter(|(k, _)| format!("{}:e:{:016x}", k.0, k.1).into_bytes() >= start).map(|(_, r)| r.clone()).collect();
+    fn edges_prefix(&self, t: &str) -> Vec<EdgeRow> {
+        let start = format!("{t}:");
+        let mut v: Vec<EdgeRow> = self.edges.iter().filter(|(k, _)| format!("{}:e:{:016x}", k.0, k.1).starts_with(&start)).map(|(_, r)| r.clone()).collect();
         v.sort();
         v
+    }
+    /// KF-C17-2 quirk: the tenant list takes everything before the first ':' of a node key
+    fn listed_first_segment(&self) -> Vec<String> {
+        self.nodes.keys().map(|k| k.0.split(':').next().unwrap_or("").to_string()).collect::<BTreeSet<_>>().into_iter().collect()
     }
 }
 
@@ -1254,21 +1479,14 @@ impl Env17 {
 
 struct Stats17 {
     two_nonempty: bool,
+    /// at some check point one id was held (as node or as relationship) by two tenants at once
+    overlap: bool,
     sep: bool,
-    sep_deviations: u64,
     kf_hits: u64,
 }
 
-fn c17_reads(pm: &PersistenceManager, case: &TCase, m: &TModel, ids: &BTreeSet<u64>, kf_on: bool, assert: bool, st: &mut Stats17, step: &str) -> Result<(), String> {
+fn c17_reads(pm: &PersistenceManager, case: &TCase, m: &TModel, ids: &BTreeSet<u64>, kf_on: bool, st: &mut Stats17, step: &str) -> Result<(), String> {
     let stg = pm.storage();
-    let deviate = |st: &mut Stats17, msg: String| -> Result<(), String> {
-        if assert {
-            Err(msg)
-        } else {
-            st.sep_deviations += 1;
-            Ok(())
-        }
-    };
     for t in &case.tenants {
         // scans
         let want_n = m.nodes_of(t);
@@ -1277,20 +1495,20 @@ fn c17_reads(pm: &PersistenceManager, case: &TCase, m: &TModel, ids: &BTreeSet<u
         let mut got_n: Vec<NodeRow> = got.iter().map(node_row).collect();
         got_n.sort();
         if got_n != want_n {
-            if assert && kf_on && got_n == m.nodes_unbounded(t) {
+            if kf_on && got_n == m.nodes_prefix(t) {
                 st.kf_hits += 1;
             } else {
-                deviate(st, format!("{step}: scan_nodes({t:?}) = {got_n:?}, tenant holds {want_n:?} (rows are (owner tenant, id, labels, tag))"))?;
+                return Err(format!("{step}: scan_nodes({t:?}) = {got_n:?}, tenant holds {want_n:?} (rows are (owner tenant, id, labels, tag))"));
             }
         }
         let got = catch(|| stg.scan_edges(t)).map_err(|p| format!("{step}: scan_edges({t:?}) panicked: {p}"))?.map_err(|e| format!("{step}: scan_edges({t:?}) failed: {e}"))?;
         let mut got_e: Vec<EdgeRow> = got.iter().map(edge_row).collect();
         got_e.sort();
         if got_e != want_e {
-            if assert && kf_on && got_e == m.edges_unbounded(t) {
+            if kf_on && got_e == m.edges_prefix(t) {
                 st.kf_hits += 1;
             } else {
-                deviate(st, format!("{step}: scan_edges({t:?}) = {got_e:?}, tenant holds {want_e:?} (rows are (owner tenant, id, source, target, type, tag))"))?;
+                return Err(format!("{step}: scan_edges({t:?}) = {got_e:?}, tenant holds {want_e:?} (rows are (owner tenant, id, source, target, type, tag))"));
             }
         }
         // recovery
@@ -1300,25 +1518,25 @@ fn c17_reads(pm: &PersistenceManager, case: &TCase, m: &TModel, ids: &BTreeSet<u
         let mut re: Vec<EdgeRow> = re.iter().map(edge_row).collect();
         re.sort();
         if rn != want_n || re != want_e {
-            if assert && kf_on && rn == m.nodes_unbounded(t) && re == m.edges_unbounded(t) {
+            if kf_on && rn == m.nodes_prefix(t) && re == m.edges_prefix(t) {
                 st.kf_hits += 1;
             } else {
-                deviate(st, format!("{step}: recover({t:?}) = nodes {rn:?} edges {re:?}; tenant holds nodes {want_n:?} edges {want_e:?}"))?;
+                return Err(format!("{step}: recover({t:?}) = nodes {rn:?} edges {re:?}; tenant holds nodes {want_n:?} edges {want_e:?}"));
             }
         }
-        // point reads
+        // point reads: keys "<tenant>:n:<16 hex>" of distinct tenants never coincide, whatever the names
         for id in ids {
             let g = catch(|| stg.get_node(t, *id)).map_err(|p| format!("{step}: get_node({t:?},{id}) panicked: {p}"))?.map_err(|e| format!("{step}: get_node({t:?},{id}) failed: {e}"))?;
             let g = g.as_ref().map(node_row);
             let w = m.nodes.get(&(t.clone(), *id)).cloned();
             if g != w {
-                deviate(st, format!("{step}: get_node({t:?},{id}) = {g:?}, model {w:?}"))?;
+                return Err(format!("{step}: get_node({t:?},{id}) = {g:?}, model {w:?}"));
             }
             let g = catch(|| stg.get_edge(t, *id)).map_err(|p| format!("{step}: get_edge({t:?},{id}) panicked: {p}"))?.map_err(|e| format!("{step}: get_edge({t:?},{id}) failed: {e}"))?;
             let g = g.as_ref().map(edge_row);
             let w = m.edges.get(&(t.clone(), *id)).cloned();
             if g != w {
-                deviate(st, format!("{step}: get_edge({t:?},{id}) = {g:?}, model {w:?}"))?;
+                return Err(format!("{step}: get_edge({t:?},{id}) = {g:?}, model {w:?}"));
             }
         }
     }
@@ -1326,22 +1544,31 @@ fn c17_reads(pm: &PersistenceManager, case: &TCase, m: &TModel, ids: &BTreeSet<u
     listed.sort();
     let want: Vec<String> = m.nodes.keys().map(|k| k.0.clone()).collect::<BTreeSet<_>>().into_iter().collect();
     if listed != want {
-        deviate(st, format!("{step}: list_persisted_tenants = {listed:?}, tenants holding a node: {want:?}"))?;
+        if kf_on && listed == m.listed_first_segment() {
+            st.kf_hits += 1;
+        } else {
+            return Err(format!("{step}: list_persisted_tenants = {listed:?}, tenants holding a node: {want:?}"));
+        }
     }
     let nonempty = case.tenants.iter().filter(|t| !m.nodes_of(t).is_empty() || !m.edges_of(t).is_empty()).count();
     if nonempty >= 2 {
         st.two_nonempty = true;
     }
+    for id in ids {
+        let holders = case.tenants.iter().filter(|t| m.nodes.contains_key(&((*t).clone(), *id)) || m.edges.contains_key(&((*t).clone(), *id))).count();
+        if holders >= 2 {
+            st.overlap = true;
+        }
+    }
     Ok(())
 }
 
 fn c17_case(env: &RefCell<Env17>, case: &TCase, kf_on: bool) -> Result<Stats17, String> {
-    let mut st = Stats17 { two_nonempty: false, sep: case.tenants.iter().any(|t| t.contains(':')), sep_deviations: 0, kf_hits: 0 };
+    let mut st = Stats17 { two_nonempty: false, overlap: false, sep: case.tenants.iter().any(|t| t.contains(':')), kf_hits: 0 };
     let distinct: BTreeSet<&String> = case.tenants.iter().collect();
     if distinct.len() != case.tenants.len() || case.tenants.is_empty() {
         return Err("replay case: tenant names must be distinct and non-empty in number".into());
     }
-    let assert = !st.sep;
     let mut envb = env.borrow_mut();
     let pm = envb.get()?;
     for t in &case.tenants {
@@ -1365,7 +1592,7 @@ fn c17_case(env: &RefCell<Env17>, case: &TCase, kf_on: bool) -> Result<Stats17, 
         if !pre.is_empty() {
             return Err(format!("harness: database not empty at case start: {pre:?}"));
         }
-        c17_reads(pm, case, &m, &ids, kf_on, assert, &mut st, "before any write")?;
+        c17_reads(pm, case, &m, &ids, kf_on, &mut st, "before any write")?;
         for (i, op) in case.ops.iter().enumerate() {
             let tn = |t: &usize| -> Result<&String, String> { case.tenants.get(*t).ok_or_else(|| format!("replay case: tenant index {t} out of range")) };
             match op {
@@ -1402,7 +1629,7 @@ fn c17_case(env: &RefCell<Env17>, case: &TCase, kf_on: bool) -> Result<Stats17, 
                     m.edges.remove(&(t.clone(), *id));
                 }
             }
-            c17_reads(pm, case, &m, &ids, kf_on, assert, &mut st, &format!("after op {i} ({op:?})"))?;
+            c17_reads(pm, case, &m, &ids, kf_on, &mut st, &format!("after op {i} ({op:?})"))?;
         }
         Ok(())
     })();
@@ -1425,28 +1652,46 @@ fn c17_case(env: &RefCell<Env17>, case: &TCase, kf_on: bool) -> Result<Stats17, 
 
 // ---- generator
 
-fn nonsep_core() -> Vec<&'static str> {
-    // prefixes of one another and neighbours of ':' (0x3A) in byte order: '!'=0x21 '9'=0x39 ';'=0x3B
-    vec!["a", "ab", "b", "a!", "a9", "a;", "aa", "", "a ", "A"]
-}
-fn nonsep_more() -> Vec<&'static str> {
-    vec!["default", "t1", "t10", "t2", "é", "aé", "日本", "~", "a\u{0}", "\u{10FFFF}", "n", "e", "0000000000000001"]
-}
-fn sep_names() -> Vec<&'static str> {
-    vec![":", "a:", "a:n", "a:n:", "a:e:", "a:b", ":a", "a:n:0000000000000001", "b:", "a:n:0000000000000001:n"]
-}
-fn tenants_strategy() -> impl Strategy<Value = Vec<String>> {
-    let all_nonsep: Vec<&'static str> = nonsep_core().into_iter().chain(nonsep_more()).collect();
-    let own = |v: Vec<&'static str>| v.into_iter().map(|s| s.to_string()).collect::<Vec<String>>();
-    prop_oneof![
-        5 => proptest::sample::subsequence(nonsep_core(), 2..=3).prop_map(own),
-        3 => proptest::sample::subsequence(all_nonsep, 2..=3).prop_map(own),
-        2 => (proptest::sample::subsequence(sep_names(), 1..=2), proptest::sample::subsequence(nonsep_core(), 1..=2)).prop_map(|(mut a, b)| {
-            a.extend(b);
-            a.truncate(3);
-            a.into_iter().map(|s| s.to_string()).collect::<Vec<String>>()
-        }),
+/// Families of tenant names: inside a family the names differ only by characters a key layout
+/// could treat as separators or normalise away, or are prefixes of one another. Every name is
+/// accepted by `TenantManager::create_tenant` (and by POST /api/tenants, which passes the id on
+/// unchecked), so every pair is a pair "the system accepts".
+fn name_families() -> Vec<(&'static str, Vec<&'static str>)> {
+    vec![
+        ("separator_variants", vec!["eu:prod", "eu_prod", "eu-prod", "eu.prod", "eu prod", "euprod", "eu/prod", "eu::prod", "eu:prod:", "EU:PROD"]),
+        ("prefix_chain", vec!["a", "a:", "a:b", "a_b", "a:b:c", "a:b:", "ab", "a_", "a-", "a.", "a:n", "a:n:", "a:e:"]),
+        ("case_variants", vec!["tenant", "Tenant", "TENANT", "tenant ", "tenant_", "\u{ff54}enant"]),
+        ("blank_looking", vec!["", " ", "  ", "\t", "\n", "\u{a0}", "\u{200b}", "\u{feff}", "\0"]),
+        ("unicode_forms", vec!["\u{e9}", "e\u{301}", "e", "\u{c9}", "\u{df}", "ss", "\u{fb01}", "fi", "\u{65e5}\u{672c}", "\u{65e5}\u{672c}:", "\u{10FFFF}"]),
+        // prefixes of one another and neighbours of ':' (0x3A) in byte order: '!'=0x21 '9'=0x39 ';'=0x3B
+        ("byte_neighbours", vec!["a", "ab", "b", "a!", "a9", "a;", "aa", "a ", "A", "a\u{0}"]),
+        ("key_shaped", vec!["a", "a:n:0000000000000001", "a:n:0000000000000001:n", ":n:", ":", "n", "e", "0000000000000001", "a:n", "a:e", ":a"]),
+        ("numeric_padding", vec!["t1", "t01", "t10", "t2", "t1:", "t_1", "T1", "t:1"]),
+        ("default_variants", vec!["default", "Default", "default:", "default_", " default", "default ", "de:fault"]),
     ]
+}
+fn family_of(ts: &[String]) -> &'static str {
+    for (name, fam) in name_families() {
+        if ts.iter().filter(|t| fam.contains(&t.as_str())).count() >= 2 {
+            return name;
+        }
+    }
+    "no_family"
+}
+/// 2-3 names of one family, or 2 of one family and a stranger
+fn tenants_strategy() -> impl Strategy<Value = Vec<String>> {
+    let fams = name_families();
+    let all: Vec<&'static str> = fams.iter().flat_map(|f| f.1.clone()).collect::<BTreeSet<_>>().into_iter().collect();
+    let per_family: Vec<BoxedStrategy<Vec<&'static str>>> = fams.into_iter().map(|(_, f)| proptest::sample::subsequence(f, 2..=3).boxed()).collect();
+    (proptest::strategy::Union::new(per_family), proptest::option::weighted(0.25, proptest::sample::select(all))).prop_map(|(mut v, extra)| {
+        if let Some(x) = extra {
+            if !v.contains(&x) {
+                v.truncate(2);
+                v.push(x);
+            }
+        }
+        v.into_iter().map(|s| s.to_string()).collect::<Vec<String>>()
+    })
 }
 fn tcase_strategy(max_ops: usize) -> impl Strategy<Value = TCase> {
     let id = || proptest::sample::select(vec![0u64, 1, 2, 3, 15, 16, 255, u64::MAX]);
@@ -1457,9 +1702,18 @@ fn tcase_strategy(max_ops: usize) -> impl Strategy<Value = TCase> {
         4 => (any::<u16>(), id(), id(), id(), proptest::sample::select(vec!["R", "", "a:e"]), 0i64..1000).prop_map(|(t, id, src, dst, ty, tag)| (t, TOp::PutEdge { t: 0, id, src, dst, ty: ty.to_string(), tag })),
         2 => (any::<u16>(), id()).prop_map(|(t, id)| (t, TOp::DelEdge { t: 0, id })),
     ];
-    (tenants_strategy(), proptest::collection::vec(op, 1..=max_ops)).prop_map(|(tenants, raw)| {
+    // `seed`: start by giving every tenant a node and a relationship with one and the same id, so the
+    // tenants' entity ids overlap whatever the random operations do (shrinks to "no seeding")
+    (tenants_strategy(), proptest::collection::vec(op, 1..=max_ops), proptest::option::weighted(0.8, id())).prop_map(|(tenants, raw, seed)| {
         let n = tenants.len();
-        let ops = raw
+        let mut seeded: Vec<TOp> = Vec::new();
+        if let Some(id) = seed {
+            for t in 0..n {
+                seeded.push(TOp::PutNode { t, id, labels: vec![], tag: 900 + t as i64 });
+                seeded.push(TOp::PutEdge { t, id, src: id, dst: id, ty: "R".into(), tag: 950 + t as i64 });
+            }
+        }
+        let ops: Vec<TOp> = raw
             .into_iter()
             .map(|(sel, op)| {
                 let ti = pick_idx(sel, n);
@@ -1471,7 +1725,8 @@ fn tcase_strategy(max_ops: usize) -> impl Strategy<Value = TCase> {
                 }
             })
             .collect();
-        TCase { tenants, ops }
+        seeded.extend(ops);
+        TCase { tenants, ops: seeded }
     })
 }
 
@@ -1503,9 +1758,9 @@ fn c17(args: &Args) {
     let mut ev = Evidence::new(
         args,
         "exploration",
-        "2-3 distinct tenant names from a boundary set (prefixes of one another, bytes next to ':' in order, empty, non-ASCII, NUL; a separate class with ':' inside) x 1-12 interleaved put/delete of nodes and relationships over overlapping ids {0,1,2,3,15,16,255,u64::MAX}; after every operation, for every tenant of the case: scan_nodes, scan_edges, recover, get_node/get_edge for every id of the case, and list_persisted_tenants, compared with a per-tenant map (every stored entity carries its owner tenant and a unique tag). One shared RocksDB per 200 cases, emptied after each case. Non-trivial = at some check point two tenants of the case are non-empty at once (their names are distinct, so one sorts before the other); distinct = distinct cases.",
+        "2-3 distinct tenant names, at least two of them from one family of near-collisions (':' vs '_' '-' '.' ' ' '/' and doubled/trailing separators; prefix chains a, a:, a:b, a_b, a:b:c; case variants; empty / whitespace / zero-width / NUL names; Unicode composed vs decomposed and case-folding pairs; bytes next to ':' in order; names shaped like key fragments; numeric padding; variants of 'default') x [in 4 of 5 cases: every tenant first gets a node and a relationship with one shared id] + 1-12 interleaved put/delete of nodes and relationships over overlapping ids {0,1,2,3,15,16,255,u64::MAX}; after every operation, for every tenant of the case: scan_nodes, scan_edges, recover, get_node/get_edge for every id of the case, and list_persisted_tenants, compared with a per-tenant map (every stored entity carries its owner tenant and a unique tag; a delete removes only the named tenant's entity). All names are asserted, including names containing ':'. One shared RocksDB per 200 cases, emptied after each case. Non-trivial = at some check point two tenants of the case are non-empty at once; distinct = distinct cases.",
     );
-    ev.assume("tenant names containing the key separator ':' make keys of one tenant a prefix of another's by construction (TenantManager::create_tenant accepts any string): those cases are executed and their deviations counted (separator_deviations) but not asserted");
+    ev.assume("every generated name is a tenant the system accepts: TenantManager::create_tenant and POST /api/tenants take any string as id");
     ev.assume("scan order is not specified: scan results are compared as sorted bags");
     let kfile = Known::load(args);
     let tmp = tempfile::tempdir().expect("tempdir");
@@ -1521,23 +1776,19 @@ fn c17(args: &Args) {
         kf_on = kfile.witness_result(&mut ev, KF17, still);
     }
 
-    let mut sep_dev_total = 0u64;
-    let account = |ev: &mut Evidence, case: &TCase, st: &Stats17, sep_dev_total: &mut u64| {
+    let account = |ev: &mut Evidence, case: &TCase, st: &Stats17| {
         ev.case();
+        ev.class(&format!("family_{}", family_of(&case.tenants)));
+        ev.class(name_relation(&case.tenants));
         if st.sep {
             ev.class("separator_names");
-            if st.sep_deviations > 0 {
-                ev.class("separator_names_with_mixing");
-            }
-            if !ev.frozen {
-                *sep_dev_total += st.sep_deviations;
-            }
-        } else {
-            ev.class(name_relation(&case.tenants));
-            if st.two_nonempty {
-                ev.nontrivial(case);
-                ev.class("two_tenants_nonempty");
-            }
+        }
+        if st.overlap {
+            ev.class("overlapping_entity_ids");
+        }
+        if st.two_nonempty {
+            ev.nontrivial(case);
+            ev.class("two_tenants_nonempty");
         }
         for _ in 0..st.kf_hits {
             ev.kf_hit(KF17);
@@ -1548,7 +1799,7 @@ fn c17(args: &Args) {
         let case: TCase = serde_json::from_value(load_replay(p)).expect("replay case");
         match c17_case(&env, &case, kf_on) {
             Ok(st) => {
-                account(&mut ev, &case, &st, &mut sep_dev_total);
+                account(&mut ev, &case, &st);
                 println!("replay: property held{}", if st.kf_hits > 0 { " (deviations explained by listed known findings)" } else { "" });
             }
             Err(m) => {
@@ -1566,7 +1817,7 @@ fn c17(args: &Args) {
         let case: TCase = serde_json::from_value(v).expect("corpus case");
         ev.class("corpus");
         match c17_case(&env, &case, kf_on) {
-            Ok(st) => account(&mut ev, &case, &st, &mut sep_dev_total),
+            Ok(st) => account(&mut ev, &case, &st),
             Err(m) => {
                 report_violation(&mut ev, &json!(case), &format!("{m} (corpus {})", p.display()));
                 finish(&ev);
@@ -1574,17 +1825,16 @@ fn c17(args: &Args) {
         }
     }
 
-    let n = args.tier.pick(12_000u32, 300_000u32);
+    let n = args.tier.pick(12_000u32, 200_000u32);
     let strat = tcase_strategy(12);
     let res = {
-        let cell = RefCell::new((&mut ev, &mut sep_dev_total));
+        let cell = RefCell::new(&mut ev);
         search(args.seed, n, &strat, |case| {
-            let mut g = cell.borrow_mut();
-            let (e, sd) = &mut *g;
+            let mut e = cell.borrow_mut();
             match c17_case(&env, case, kf_on) {
                 Ok(st) => {
-                    account(e, case, &st, sd);
-                    if e.want_sample() && st.two_nonempty && !st.sep && case.ops.len() >= 4 {
+                    account(&mut e, case, &st);
+                    if e.want_sample() && st.two_nonempty && case.ops.len() >= 4 {
                         e.sample(json!(case));
                     }
                     Ok(())
@@ -1598,9 +1848,7 @@ fn c17(args: &Args) {
         })
     };
     if let Some((case, msg)) = res {
-        // drop unused tenants / renumber is not needed: proptest already shrank ops and names
         report_violation(&mut ev, &json!(case), &msg);
     }
-    ev.set("separator_deviations", json!(sep_dev_total));
     finish(&ev);
 }
